@@ -37,7 +37,7 @@ def exp_api(st):
         if not rec.get("live"):
             continue
         out[h] = {"names": sorted(_seq(rec.get("names"))), "children": sorted(_seq(rec.get("children"))),
-                  "ad": bool(rec.get("ad", True)), "data_ad": {e["n"]: bool(e.get("ad", True)) for e in _seq(rec.get("vals"))},
+                  "ad": bool(rec.get("ad", True)), "pub": bool(rec.get("pub", True)), "data_ad": {e["n"]: bool(e.get("ad", True)) for e in _seq(rec.get("vals"))},
                   "vals": {e["n"]: _seq(e["v"]) for e in _seq(rec.get("vals"))},
                   "pgs": sorted((p["name"], p["ptype"], tuple(_seq(p["props"]))) for p in _seq(rec.get("pgs")))}
     return out
@@ -54,7 +54,8 @@ def exp_attrs(st):
     for r in _seq(st["s"]["attrs"]):
         keys = tuple(sorted((k["n"], k["d"]) for k in _seq(r["keys"])))
         recs.append((r["kind"], r["id"] if r["kind"] != "empty" else 0, r["name"] if r["kind"] in ("data", "pg") else "",
-                     keys, tuple(_seq(r["props"])), r["ptype"], bool(r.get("ad", True)) if r["kind"] in ("hole", "data") else True))
+                     keys, tuple(_seq(r["props"])), r["ptype"], bool(r.get("ad", True)) if r["kind"] in ("hole", "data") else True,
+                     bool(r.get("pub", True)) if r["kind"] == "hole" else True))
     return Counter(recs)
 
 
@@ -76,7 +77,7 @@ def got_api(scene):
         pgs = rec["pgs"]
         pgs = pgs if isinstance(pgs, str) else sorted((n, p["type"], tuple(p["props"])) for n, p in pgs.items())
         out[h] = {"names": rec["names"], "vals": vals, "pgs": pgs, "children": rec["children"],
-                  "ad": rec["ad"], "data_ad": rec["data_ad"]}
+                  "ad": rec["ad"], "pub": rec.get("pub", True), "data_ad": rec["data_ad"]}
     return out
 
 
@@ -99,17 +100,17 @@ def got_attrs(scene, raw):
     recs = []
     for r in raw["attrs"] or []:
         if "ID" not in r:
-            recs.append(("empty", 0, "", (), (), "", True))
+            recs.append(("empty", 0, "", (), (), "", True, True))
             continue
         uid = r["ID"]
         if "Object Type ID" in r:
             keys = tuple(sorted((k[len("Property:"):], scene.data_sid.get(v, v)) for k, v in r.items() if k.startswith("Property:")))
-            recs.append(("hole", scene.slot_of(uid), "", keys, (), "", bool(r.get("Allow delete", True))))
+            recs.append(("hole", scene.slot_of(uid), "", keys, (), "", bool(r.get("Allow delete", True)), bool(r.get("Public", True))))
         elif "Type ID" in r:
-            recs.append(("data", scene.data_sid.get(uid, uid), r.get("Name"), (), (), "", bool(r.get("Allow delete", True))))
+            recs.append(("data", scene.data_sid.get(uid, uid), r.get("Name"), (), (), "", bool(r.get("Allow delete", True)), True))
         else:
             recs.append(("pg", scene.pg_sid.get(uid, uid), r.get("Group Name"), (),
-                         tuple(scene.data_sid.get(p, p) for p in r.get("Properties") or []), r.get("Property Group Type", ""), True))
+                         tuple(scene.data_sid.get(p, p) for p in r.get("Properties") or []), r.get("Property Group Type", ""), True, True))
     return Counter(recs)
 
 
@@ -167,6 +168,8 @@ def compare_state(scene, st, after_reopen=False, findings=None):
                 raise Mismatch("api-readback", f"hole {h} data {n}: read {got[h]['vals'].get(n)} expected {v}")
         if want[h]["ad"] != got[h]["ad"]:
             raise Mismatch("api-allow-delete", f"hole {h}: allow_delete {got[h]['ad']} expected {want[h]['ad']}")
+        if want[h]["pub"] != got[h]["pub"]:
+            raise Mismatch("api-public", f"hole {h}: public {got[h]['pub']} expected {want[h]['pub']}")
         for n, flag in got[h]["data_ad"].items():
             if want[h]["data_ad"].get(n, flag) != flag:
                 raise Mismatch("api-allow-delete", f"hole {h} data {n}: allow_delete {flag} expected {want[h]['data_ad'][n]}")
